@@ -65,6 +65,16 @@ def child_loop(mk):
     return c
 
 
+def child_with_blackbox(mk, mkbb):
+    # a child that carries a blackbox instance of its own: a -> r.d, r.q -> w -> o
+    c = mk("cbb")
+    c.add("x", "input")
+    c.add("w", "buf")
+    c.add("o", "and", fanin=["w", "x"], output=True)
+    c.add_blackbox(mkbb("ff1", ["d"], ["q"]), "r", {"d": "x", "q": "w"})
+    return c
+
+
 def child_feedthrough(mk):
     c = mk("ft")
     c.add("d", "input")
@@ -123,7 +133,7 @@ class Driver:
             return c.fill_blackbox(inst, child)
         if meth == "@add_sub":
             which, inst, conns = args
-            child = {"loop": child_loop, "ha": child_ha}[which](self.mk)
+            child = child_with_blackbox(self.mk, self.mkbb) if which == "withbb" else {"loop": child_loop, "ha": child_ha}[which](self.mk)
             return c.add_subcircuit(child, inst, dict(conns) if conns else None)
         if meth == "@copy_then_edit":
             d = c.copy()
